@@ -348,31 +348,51 @@ theorem key_text_injective (t1 t2 : String) (e1 e2 : Nat) (h1 : e1 < 3) (h2 : e2
 /-! ### T3 — custom archetypes replace or extend the reference set -/
 
 /-- **T3a.** A custom archetype whose type is a reference type is written into that type's row, at
-    its own era slot and the (proxy) zone column; the library keeps its length and every other cell. -/
-theorem custom_replaces (zi : Nat) (lib lib' : Lib K) (c : Arch K) (ti : Nat)
-    (hidx : refBldType.idxOf? c.bldtype = some ti) (h : customize1 zi lib c = .ok lib') :
-    lib'.length = lib.length ∧ cellAt lib' ti c.era zi = some c ∧
+    its own era slot and the (proxy) zone column; the library keeps its length and every other
+    cell, and the row dictionary is unchanged. -/
+theorem custom_replaces (zi : Nat) (lib lib' : Lib K) (m m' : RowMap) (c : Arch K) (ti : Nat)
+    (hidx : refBldType.idxOf? c.bldtype = some ti) (h : customize1 zi lib m c = .ok (lib', m')) :
+    m' = m ∧ lib'.length = lib.length ∧ cellAt lib' ti c.era zi = some c ∧
     ∀ i j z, ¬ (i = ti ∧ j = c.era ∧ z = zi) → cellAt lib' i j z = cellAt lib i j z := by
-  obtain ⟨_, hlen, _, hcell⟩ := customize1_spec h
-  have htr : targetRow lib c = ti := by simp [targetRow, hidx]
-  simp only [hidx, Option.isSome_some, if_true] at hlen
-  refine ⟨hlen, by rw [hcell, htr]; simp, fun i j z hne => ?_⟩
+  obtain ⟨_, hlen, hm, _, hcell⟩ := customize1_spec h
+  have htr : targetRow lib m c = ti := by simp [targetRow, hidx]
+  have happ : appends m c = false := by simp [appends, hidx]
+  rw [happ] at hlen hm
+  refine ⟨hm, hlen, by rw [hcell, htr]; simp, fun i j z hne => ?_⟩
   rw [hcell, htr, if_neg hne]
 
-/-- **T3b.** A custom archetype with a new type name gets a new last row that is empty except for
-    the archetype itself at its era slot and the zone column; all existing rows are unchanged. -/
-theorem custom_extends (zi : Nat) (lib lib' : Lib K) (c : Arch K)
-    (hidx : refBldType.idxOf? c.bldtype = none) (h : customize1 zi lib c = .ok lib') :
+/-- **T3b.** The first custom archetype of a new type name gets a new last row that is empty except
+    for the archetype itself at its era slot and the zone column; all existing rows are unchanged
+    and the dictionary remembers the row. -/
+theorem custom_extends (zi : Nat) (lib lib' : Lib K) (m m' : RowMap) (c : Arch K)
+    (hidx : refBldType.idxOf? c.bldtype = none) (hfirst : lookupRow c.bldtype m = none)
+    (h : customize1 zi lib m c = .ok (lib', m')) :
+    m' = m ++ [(c.bldtype, lib.length)] ∧
     lib'.length = lib.length + 1 ∧ cellAt lib' lib.length c.era zi = some c ∧
     (∀ j z, ¬ (j = c.era ∧ z = zi) → cellAt lib' lib.length j z = none) ∧
     ∀ i j z, i ≠ lib.length → cellAt lib' i j z = cellAt lib i j z := by
-  obtain ⟨_, hlen, _, hcell⟩ := customize1_spec h
-  have htr : targetRow lib c = lib.length := by simp [targetRow, hidx]
-  simp only [hidx, Option.isSome_none, Bool.false_eq_true, if_false] at hlen
-  refine ⟨hlen, by rw [hcell, htr]; simp, fun j z hne => ?_, fun i j z hne => ?_⟩
+  obtain ⟨_, hlen, hm, _, hcell⟩ := customize1_spec h
+  have htr : targetRow lib m c = lib.length := by simp [targetRow, hidx, hfirst]
+  have happ : appends m c = true := by simp [appends, hidx, hfirst]
+  rw [happ] at hlen hm
+  refine ⟨hm, hlen, by rw [hcell, htr]; simp, fun j z hne => ?_, fun i j z hne => ?_⟩
   · rw [hcell, htr, if_neg (fun e => hne ⟨e.2.1, e.2.2⟩)]
     unfold cellAt; rw [List.getElem?_eq_none (Nat.le_refl _)]
   · rw [hcell, htr, if_neg (fun e => hne e.1)]
+
+/-- **T3c.** A later custom archetype of an already added new type is written into that type's
+    row (no second row): it fills another era slot or replaces the earlier custom of the same era. -/
+theorem custom_extends_again (zi : Nat) (lib lib' : Lib K) (m m' : RowMap) (c : Arch K) (ti : Nat)
+    (hidx : refBldType.idxOf? c.bldtype = none) (hrow : lookupRow c.bldtype m = some ti)
+    (h : customize1 zi lib m c = .ok (lib', m')) :
+    m' = m ∧ lib'.length = lib.length ∧ cellAt lib' ti c.era zi = some c ∧
+    ∀ i j z, ¬ (i = ti ∧ j = c.era ∧ z = zi) → cellAt lib' i j z = cellAt lib i j z := by
+  obtain ⟨_, hlen, hm, _, hcell⟩ := customize1_spec h
+  have htr : targetRow lib m c = ti := by simp [targetRow, hidx, hrow]
+  have happ : appends m c = false := by simp [appends, hidx, hrow]
+  rw [happ] at hlen hm
+  refine ⟨hm, hlen, by rw [hcell, htr]; simp, fun i j z hne => ?_⟩
+  rw [hcell, htr, if_neg hne]
 
 /-- **Model invariant.** `_customize_reference_data` derives the slot from the archetype's own
     `builtera`, so it cannot produce a cell whose era attribute disagrees with its slot: slot
@@ -384,25 +404,30 @@ theorem customize_keeps_slots (zone : String) (zi : Nat) (cs : List (Arch K)) (l
   unfold customize at h
   rw [hz] at h
   simp only at h
-  rw [slotOK_iff] at hslot ⊢
-  induction cs generalizing lib with
-  | nil => simp only [customizeLoop] at h; cases h; exact hslot
-  | cons c cs ih =>
-    simp only [customizeLoop] at h
-    split at h
-    · cases h
-    · rename_i lib1 h1
-      apply ih lib1 _ h
-      obtain ⟨_, _, _, hcell⟩ := customize1_spec h1
-      intro i j a hj hc
-      rw [hcell] at hc
-      split at hc
-      · rename_i hij; cases hc; exact hij.2.1.symm
-      · exact hslot i j a hj hc
+  split at h
+  · cases h
+  · rename_i lib1 m1 hl
+    cases h
+    rw [slotOK_iff] at hslot ⊢
+    generalize ([] : RowMap) = m0 at hl
+    induction cs generalizing lib m0 with
+    | nil => simp only [customizeLoop] at hl; cases hl; exact hslot
+    | cons c cs ih =>
+      simp only [customizeLoop] at hl
+      split at hl
+      · cases hl
+      · rename_i lib2 m2 h1
+        apply ih lib2 _ m2 hl
+        obtain ⟨_, _, _, _, hcell⟩ := customize1_spec h1
+        intro i j a hj hc
+        rw [hcell] at hc
+        split at hc
+        · rename_i hij; cases hc; exact hij.2.1.symm
+        · exact hslot i j a hj hc
 
 /-- **T3.** End to end through `generate` on a library shaped like the shipped one (16 rows, row
-    `i` holding type `REF_BLDTYPE[i]`, slots consistent), with any list of custom archetypes whose
-    new-type members have pairwise different (type, era): if the selection succeeds then
+    `i` holding type `REF_BLDTYPE[i]`, slots consistent), with **any** list of custom archetypes
+    (repeated types and eras allowed): if the selection succeeds then
     * the simulated archetypes are, as in T1, a permutation of the aggregated stock list and their
       fractions sum to the stock total;
     * a simulated (type, era) for which custom archetypes exist is simulated by the **last** such
@@ -411,7 +436,7 @@ theorem customize_keeps_slots (zone : String) (zi : Nat) (cs : List (Arch K)) (l
 theorem custom_replaces_extends (P : Params K) (cs : List (Arch K)) (lib : Lib K) (zi : Nat)
     (rows : List (Key × K)) (es : List (Entry K)) (tot : Totals K)
     (hz : zoneIdx? P.zone = some zi) (hk : keyed P.bld = .ok rows)
-    (hlib : RefLib zi lib) (hnew : (newKeys cs).Nodup)
+    (hlib : RefLib zi lib)
     (h : generateBEM P cs lib = .ok (es, tot)) :
     (es.map (fun e => (e.arch.key, e.frac))).Perm (aggregate rows) ∧
     (es.map (·.frac)).sum = (P.bld.map (·.frac)).sum ∧
@@ -420,17 +445,21 @@ theorem custom_replaces_extends (P : Params K) (cs : List (Arch K)) (lib : Lib K
       | some c => e.arch = applyOv P c
       | none => ∃ i a, cellAt lib i e.arch.era zi = some a ∧ a.key = e.arch.key ∧
           e.arch = applyOv P a := by
-  have hloop : ∃ lib', customizeLoop zi cs lib = .ok lib' ∧ computeBEM P lib' = .ok (es, tot) := by
+  have hloop : ∃ lib' m', customizeLoop zi cs lib [] = .ok (lib', m') ∧
+      computeBEM P lib' = .ok (es, tot) := by
     unfold generateBEM at h
     cases cs with
-    | nil => exact ⟨lib, rfl, h⟩
+    | nil => exact ⟨lib, [], rfl, h⟩
     | cons c cs =>
       simp only [customize, hz] at h
       split at h
       · cases h
-      · rename_i lib' hl; exact ⟨lib', hl, h⟩
-  obtain ⟨lib', hl, hc⟩ := hloop
-  have inv := hlib.inv.loop hl (by simpa using hnew)
+      · rename_i lib' hl
+        split at hl
+        · cases hl
+        · rename_i lib1 m1 hl1; cases hl; exact ⟨_, m1, hl1, h⟩
+  obtain ⟨lib', m', hl, hc⟩ := hloop
+  have inv := hlib.inv.loop hl
   obtain ⟨hperm, hsrc, hsum⟩ := bem_exact P lib' zi rows es tot hz hk inv.slotOK inv.keysUnique hc
   refine ⟨hperm, hsum, fun e he => ?_⟩
   obtain ⟨row, hrow, a, hj, hcell, hty, harch⟩ := hsrc e he
@@ -442,7 +471,7 @@ theorem custom_replaces_extends (P : Params K) (cs : List (Arch K)) (lib : Lib K
   | some c =>
     simp only
     obtain ⟨hcm, hck⟩ := lastWithKey_some hlk
-    obtain ⟨i', hc'⟩ := hlib.inv.last_present hl (by simpa using hnew) hlk
+    obtain ⟨i', hc'⟩ := hlib.inv.last_present hl hlk
     have hcera : c.era = e.arch.era := by
       have : c.key = e.arch.key := hck
       simpa [Arch.key] using (congrArg Prod.snd this)
@@ -489,7 +518,7 @@ def customA : Arch ℚ := mkA "customa" 2 1000
 
 def asisWithCustoms (P : Params ℚ) (cs : List (Arch ℚ)) (lib : Lib ℚ) :
     Except Err (List (Entry ℚ) × Totals ℚ) :=
-  match customize P.zone cs lib with
+  match customizeAsis P.zone cs lib with
   | .error e => .error e
   | .ok lib' => computeBEMAsis P lib'
 
@@ -535,12 +564,19 @@ theorem fixed_witnesses :
     view (generateBEM (exP "2A" [⟨"customa", "new", 1⟩]) [customA] exLib) = some [(1000, 1)] := by
   decide +kernel
 
-/-- Outside the input domain of T3 (hypothesis `(newKeys cs).Nodup`), as the code stands: two
-    custom archetypes with the same *new* type and era get two rows and are **both** simulated at
-    the full fraction — the fractions then sum to 2. (Reported as a finding; the model mirrors it.) -/
-theorem dup_custom_double_counts :
+/-- **T6e.** Before the repair of `_customize_reference_data` two custom archetypes with the same
+    *new* type and era got a row each and were **both** simulated at the full fraction (fractions
+    summing to 2); now they share one row and the last one wins (T3, `custom_extends_again`). -/
+theorem asis_dup_custom_double_counts :
+    view (match customizeAsis "1A" [customA, mkA "customa" 2 1001] exLib with
+      | .error e => .error e
+      | .ok lib' => computeBEM (exP "1A" [⟨"customa", "new", 1⟩]) lib') =
+      some [(1000, 1), (1001, 1)] ∧
     view (generateBEM (exP "1A" [⟨"customa", "new", 1⟩]) [customA, mkA "customa" 2 1001] exLib) =
-      some [(1000, 1), (1001, 1)] := by decide +kernel
+      some [(1001, 1)] ∧
+    view (generateBEM (exP "2A" [⟨"customa", "new", 1 / 2⟩, ⟨"customa", "pre80", 1 / 2⟩])
+      [customA, mkA "customa" 0 1001, mkA "customa" 2 1002] exLib) =
+      some [(1001, 1 / 2), (1002, 1 / 2)] := by decide +kernel
 
 end Witnesses
 
